@@ -4,13 +4,16 @@ import (
 	"bytes"
 	"context"
 	"crypto/tls"
+	"fmt"
 	"io"
+	"net"
 
 	hclog "github.com/hashicorp/go-hclog"
 	plugin "github.com/hashicorp/go-plugin"
 	grpctest "github.com/hashicorp/go-plugin/test/grpc"
 	"google.golang.org/grpc"
 
+	"verif/engine/vnet"
 	"verif/engine/vs"
 )
 
@@ -53,7 +56,22 @@ type grpcPair struct {
 	hb, pb *plugin.GRPCBroker
 }
 
+// xlateRunner is an AttachedRunner whose only job is address translation between the
+// plugin's and the host's view of socket paths (DESIGN 9: vnet namespaces).
+type xlateRunner struct{}
+
+func (xlateRunner) Wait(context.Context) error { select {} }
+func (xlateRunner) Kill(context.Context) error { return nil }
+func (xlateRunner) ID() string                 { return "xlate" }
+func (xlateRunner) PluginToHost(n, a string) (string, string, error) {
+	return n, vnet.ViewPrefix("host") + a, nil
+}
+func (xlateRunner) HostToPlugin(n, a string) (string, string, error) {
+	return n, vnet.ViewPrefix("plugin") + a, nil
+}
+
 type grpcPairOpts struct {
+	xlate     bool
 	mux       bool
 	hostTLS   *tls.Config
 	pluginTLS *tls.Config
@@ -106,7 +124,13 @@ func newGRPCPair(x *vs.Exec, o grpcPairOpts) (*grpcPair, error) {
 	if cfg.SyncStderr == nil {
 		cfg.SyncStderr = io.Discard
 	}
-	p.cl = plugin.VNewClientAt(lnAddr, plugin.ProtocolGRPC, cfg, nil)
+	if o.xlate {
+		vnet.SetNamespaces(true)
+		ua := &net.UnixAddr{Net: "unix", Name: vnet.ViewPrefix("host") + lnAddr.String()}
+		p.cl = plugin.VNewClientAt(ua, plugin.ProtocolGRPC, cfg, xlateRunner{})
+	} else {
+		p.cl = plugin.VNewClientAt(lnAddr, plugin.ProtocolGRPC, cfg, nil)
+	}
 	cp, err := p.cl.Client()
 	if err != nil {
 		return nil, err
@@ -115,6 +139,9 @@ func newGRPCPair(x *vs.Exec, o grpcPairOpts) (*grpcPair, error) {
 	x.OnCleanup(func() { p.gc.Close() })
 	if _, err := p.gc.Dispense("g"); err != nil {
 		return nil, err
+	}
+	if err := p.gc.Ping(); err != nil { // the main connection must really be up before the subject starts
+		return nil, fmt.Errorf("main connection: %w", err)
 	}
 	p.hb, p.pb = g.cb, g.sb
 	return p, nil
